@@ -12,6 +12,12 @@
 namespace sim
 {
 
+static std::vector<std::pair<uint64_t, int>> g_lastSwitchLog;
+const std::vector<std::pair<uint64_t, int>>& lastSwitchLog()
+{
+    return g_lastSwitchLog;
+}
+
 static std::vector<Plan> splitThreads(const Plan& plan, int n)
 {
     std::vector<Plan> subs(static_cast<size_t>(n));
@@ -82,6 +88,7 @@ RunResult execThreads(const Plan& plan)
         cfg.horizon = horizon;
     }
     sched::Report rep = sched::runThreads(cfg, bodies);
+    g_lastSwitchLog = rep.switchLog;
     out.interleaveHash = rep.scheduleHash;
     out.probes["scheduled-run"] += 1;
     out.probes["yield-points"] += rep.yields;
